@@ -160,6 +160,17 @@ impl EpochRun {
             let rs = match (op, self.kind.as_str()) {
                 ("create", "manager") => self.w.exec(&sender, &self.clock.clone(), &ExecuteMsg::CreateEpoch {}, &[]),
                 ("create", _) => self.w.exec(&sender, &self.clock.clone(), &white_whale_std::fee_distributor::ExecuteMsg::NewEpoch {}, &[]),
+                // the admin re-configures the clock: a new duration from now on (x = "<duration ns>" or "<duration ns>+owner" when
+                // the message also names the - unchanged - owner)
+                ("reconfig", _) => {
+                    let with_owner = x.ends_with("+owner");
+                    let d: u64 = x.trim_end_matches("+owner").parse().unwrap();
+                    let rs = self.w.exec(&sender, &self.clock.clone(), &ExecuteMsg::UpdateConfig {
+                        owner: if with_owner { Some(self.w.owner.to_string()) } else { None },
+                        epoch_config: Some(EpochConfig { duration: Uint64::new(d), genesis_epoch: Uint64::new(self.genesis) }) }, &[]);
+                    if rs.is_ok() { self.dur = d; }
+                    rs
+                }
                 ("addhook", _) => {
                     let i = HOOKS.iter().position(|h| *h == x).unwrap();
                     let h = self.hooks[i].to_string();
@@ -172,7 +183,7 @@ impl EpochRun {
                 }
             };
             let dpost = self.w.digest();
-            ev.insert("args".into(), json!({"x": x}));
+            ev.insert("args".into(), if op == "reconfig" { json!({"x": x, "dur": x.trim_end_matches("+owner")}) } else { json!({"x": x}) });
             ev.insert("res".into(), json!(rs.tag()));
             ev.insert("err".into(), jerr(&rs.err()));
             ev.insert("dpre".into(), json!(dpre));
@@ -227,6 +238,12 @@ pub fn run_random(rec: &mut Rec, seed: u64, run: u64, kind: &str, nops: usize) {
             40..=79 => {
                 let c = *gen::pick(&mut r, &["plus1", "before", "at", "after", "late", "at", "before"]);
                 p.step(rec, run, step, "tick", c, true)
+            }
+            80..=84 if kind == "manager" => {
+                let d = *gen::pick(&mut r, &DURS);
+                let x = format!("{}{}", d, if r.gen_bool(0.5) { "+owner" } else { "" });
+                let by_owner = r.gen_bool(0.8);
+                p.step(rec, run, step, "reconfig", &x, by_owner)
             }
             _ if kind == "manager" => {
                 let h = *gen::pick(&mut r, &HOOKS);
